@@ -157,9 +157,75 @@ def gen_dmz_cross(rng: Rng) -> dict:
             "notes": {"routers": 2, "kinds": f"firewall+{k2}", "routing": "cross", "fw": mode, "dmz_cross": True, "permit": "some"}}
 
 
+def gen_two_gateway(rng: Rng) -> dict:
+    """A CONSISTENT family the chain / shared-transit topologies do not contain: one LAN with TWO routers on it and asymmetric
+    routing.  Hosts of LAN L use R1 as default gateway; LAN M hangs off R2 (also on L), LAN N off R1.  A frame M -> L is delivered
+    onto L by R2 (so L's hosts learn "remote address -> R2's MAC" from it), while their own traffic to M must go to their gateway
+    R1, which routes it back onto L to R2.  A host that short-cuts through its ARP cache for off-subnet destinations changes the
+    path (and, where the delivering router has no route back, loses the exchange)."""
+    t = Topo()
+    r1, r2 = t.router("router"), t.router("router")
+    pl = rng.choice([24, 24, 25])
+    L, M, N = (192, 168, 30, 0), (192, 168, 31, 0), (172, 20, 0, 0)
+    sl = t.switch(6)
+    order = rng.shuffle(["r1", "r2", "h", "h"])
+    l_hosts = []
+    hostnum = 10
+    for what in order:
+        if what == "r1":
+            t.link(r1, t.rport(r1, _ip(L, 1), pl), sl, t.swport(sl))
+        elif what == "r2":
+            t.link(r2, t.rport(r2, _ip(L, 2), pl), sl, t.swport(sl))
+        else:
+            gw = _ip(L, 1) if (not l_hosts or rng.chance(2, 3)) else _ip(L, 2)
+            h = t.host(_ip(L, hostnum), pl, gw)
+            hostnum += 1
+            t.link(h, 0, sl, t.swport(sl))
+            l_hosts.append(h)
+    pm = rng.choice([24, 26])
+    km = t.rport(r2, _ip(M, 1), pm)
+    if rng.chance(1, 2):
+        sm = t.switch(3)
+        t.link(r2, km, sm, t.swport(sm))
+        x = t.host(_ip(M, 2), pm, _ip(M, 1))
+        t.link(x, 0, sm, t.swport(sm))
+    else:
+        x = t.host(_ip(M, 2), pm, _ip(M, 1))
+        t.link(x, 0, r2, km)
+    kn = t.rport(r1, _ip(N, 1), 16)
+    y = t.host(_ip(N, 2), 16, _ip(N, 1))
+    t.link(y, 0, r1, kn)
+    t.nodes[r1]["routes"].append({"addr": _ip(M, 0), "mask": _mask(pm), "nh": _ip(L, 2), "metric": 0})
+    style = rng.choice(["static", "default"])
+    if style == "static":
+        t.nodes[r2]["routes"].append({"addr": _ip(N, 0), "mask": _mask(16), "nh": _ip(L, 1), "metric": 0})
+    else:
+        t.nodes[r2]["default"] = _ip(L, 1)
+    hosts = l_hosts + [x, y]
+    ops: List[dict] = []
+    first = rng.choice([(x, l_hosts[0]), (l_hosts[0], x)])  # who speaks first decides what the LAN host has learned
+    ops.append({"op": "ping", "src": first[0], "dst": t.nodes[first[1]]["ip"], "count": rng.choice([1, 2])})
+    pairs = rng.shuffle([(p, q) for p in hosts for q in hosts if p != q])
+    for p, q in pairs:
+        ops.append({"op": "ping", "src": p, "dst": t.nodes[q]["ip"], "count": rng.choice([1, 1, 4])})
+    srv = rng.choice([x, y, l_hosts[0]])
+    t.nodes[srv]["flag"] = True
+    for r in (r1, r2):
+        t.nodes[r]["flag"] = True
+    ops += [{"op": "service", "src": h, "dst": t.nodes[srv]["ip"]} for h in hosts if h != srv]
+    ops += [{"op": "ping", "src": p, "dst": t.nodes[q]["ip"], "count": 1} for p, q in pairs[:4]]
+    for n in t.nodes:
+        n.pop("used", None)
+    return {"nodes": t.nodes, "links": t.links, "air": [], "ops": ops, "ping_permit": True, "all_permit": True, "consistent": True,
+            "icmp_ident_zero": False,
+            "notes": {"routers": 2, "kinds": "router+router", "routing": "two-gateway-" + style, "two_gateway": True, "permit": "all"}}
+
+
 def gen_case(rng: Rng, max_routers: int = 3) -> dict:
     if rng.chance(1, 14):
         return gen_dmz_cross(rng)
+    if rng.chance(1, 12):
+        return gen_two_gateway(rng)
     t = Topo()
     nr = rng.choice([0, 1, 1, 2, 2, 3][: 2 + 2 * max_routers]) if max_routers < 3 else rng.choice([0, 1, 1, 2, 2, 2, 3, 3])
     lan_prefixes = [24, 24, 25, 28, 16, 26]
